@@ -104,11 +104,11 @@ def group_sweep():
                 r = h.handle_response(AddOffsetsToTxnResponse_v0(0, code))
             except Exception:
                 r = "raised"
-            added = tm._txn_consumer_group
-            if code != 0 and added is not None:
+            added = set(tm._txn_consumer_groups)
+            if code != 0 and added:
                 bad.append("AddOffsetsToTxn answered with %s (%d) and the group counts as part of the transaction"
                            % (Errors.for_code(code).__name__, code))
-            if code == 0 and (added != "g" or r is not None):
+            if code == 0 and (added != {"g"} or r is not None):
                 bad.append("AddOffsetsToTxn acknowledged but group recorded as %r, handler result %r" % (added, r))
             if r is None and code not in (0, 30):
                 bad.append("AddOffsetsToTxn answered with %s (%d): reported as done, never retried" % (Errors.for_code(code).__name__, code))
